@@ -187,7 +187,7 @@ pub fn generate(rng: &mut Rng, ows: bool) -> Plan {
                     cookie_name: if rng.chance(1, 3) { Some(rng.pick(COOKIE_NAMES).to_string()) } else { None },
                 },
                 1 => Op::NewSignal { l: rng.below(5) },
-                2 => Op::Scope { view: rng.below(8), which: rng.below(4) },
+                2 => Op::Scope { view: rng.below(8), which: rng.below(8) },
                 3 | 4 => Op::Set { view: rng.below(8), l: rng.below(5) },
                 5 => Op::SetUntracked { view: rng.below(8), l: rng.below(5) },
                 6 => Op::WriteWired { sig: rng.below(3), l: rng.below(5) },
@@ -597,7 +597,8 @@ pub fn execute(plan: &Plan, rng: &mut Rng) -> Outcome {
                 Op::Scope { view, which } => match pick_mod(&page.live_views(), *view) {
                     Some(v) if page.views[v].h.n_scopes > 0 && page.views.len() < 12 => {
                         let ctx = page.views[v].ctx;
-                        let h = (page.views[v].h.make_scope)(*which);
+                        // inside the owner that provides this context (`use_i18n_scoped!` looks it up)
+                        let h = page.ctxs[ctx].owner.with(|| (page.views[v].h.make_scope)(*which));
                         stats.probe(&format!("scoped_view_{}", h.kind));
                         page.views.push(ViewM { ctx, h });
                     }
